@@ -787,6 +787,11 @@ func handleGetex(params internal.HandlerFuncParams) ([]byte, error) {
 
 	// Handle exipre command passed but no time provided
 	if cmdLen == 3 {
+		switch exCommand {
+		case "EX", "PX", "EXAT", "PXAT":
+		default:
+			return nil, fmt.Errorf("unknown option %s -- '%v'", exCommand, params.Command)
+		}
 		return []byte(fmt.Sprintf("$%d\r\n%v\r\n", len(fmt.Sprint(value)), value)), nil
 	}
 
